@@ -19,7 +19,7 @@ from ..kernel import Engine, Violation
 
 import atomman as am
 
-NAMES = ['charge', 'vel', 'stress', 'tag', 'flag', 'name', 'q6', 'q7']
+NAMES = ['charge', 'vel', 'stress', 'tag', 'flag', 'name', 'q6', 'q7', 'p', 's', 'os']     # 'p' momentum, 's' spin: also pieces of 'pos'
 CLASSES = ['int', 'float', 'bool', 'str']
 TSHAPES = [(), (), (3,), (3, 3), (2, 2, 2), (2,)]
 STRS = ['aa', 'bb', 'cd', 'xy', 'Fe', 'Al', 'zz', 'q1']
@@ -140,7 +140,7 @@ class AtomsEngine(Engine):
     name = 'session_atoms'
     max_ops = 50
     expected_probes = ['inplace_overwrite_other_dtype', 'alias_candidate_used', 'refused_raised', 'scribble_result',
-                       'scribble_safecopy', 'setitem_overlap', 'extend_new_props_both_sides', 'natypes_grew', 'readonly_reassign_refused', 'noncontiguous_input', 'atype_lt1_scalar_forms', 'default_constructed_object', 'types_renumbered_through_prop_atype', 'scaled_access_by_a_id', 'symbol_as_numpy_string', 'integer_typed_positions', 'atoms_df_scale_list', 'assigned_a_view_of_itself',
+                       'scribble_safecopy', 'setitem_overlap', 'extend_new_props_both_sides', 'natypes_grew', 'readonly_reassign_refused', 'noncontiguous_input', 'atype_lt1_scalar_forms', 'default_constructed_object', 'types_renumbered_through_prop_atype', 'scaled_access_by_a_id', 'symbol_as_numpy_string', 'integer_typed_positions', 'atoms_df_scale_list', 'assigned_a_view_of_itself', 'view_set_through_mapping_method', 'atoms_df_scale_given_as_one_name', 'held_table_checked_after_edits', 'scribble_on_table',
                        'negative_index', 'mask_index', 'scaled_write', 'prop_atype_single_new_key', 'df_checked',
                        'box_set_with_possible_sharers', 'box_alias_candidate_used']
     rule = ('Each run keeps a pool of up to 6 live Atoms/System objects (parent/child links recorded) and applies up to '
@@ -176,6 +176,9 @@ class AtomsEngine(Engine):
         for nm in r.sample(NAMES, r.randint(1, 5)):
             reg[nm] = [r.choice(CLASSES), list(r.choice(TSHAPES))]
         reg['vel'] = ['float', [3]] if 'vel' in reg else reg.get('vel')
+        for nm in ('p', 's', 'os'):
+            if nm in reg and r.random() < 0.7:
+                reg[nm] = ['float', [3]]
         reg = {k: v for k, v in reg.items() if v}
         return {'nops': r.randint(5, 50), 'reg': reg, 'fault_free': r.random() < 0.2,
                 'w_fault': r.uniform(0.3, 2.0), 'w_sys': r.uniform(0.3, 2.0), 'w_struct': r.uniform(0.5, 2.0)}
@@ -347,6 +350,10 @@ class AtomsEngine(Engine):
             vec = [nm for nm, (c2, t2) in m.reg.items() if c2 == 'float' and tuple(t2) == (3,)]
             if m.kind == 'system' and len(vec) >= 2 and r.random() < 0.5:
                 op['scale_list'] = r.sample(vec, r.randint(2, len(vec)))     # several properties, in the caller's order
+            elif m.kind == 'system' and vec and r.random() < 0.4:
+                op['scale_str'] = r.choice(vec)          # one property, named by a bare string
+            op['scribble'] = r.random() < 0.3
+            op['junk'] = r.randint(60, 70)
             return op
         if k == 'sys':
             return self._gen_sys(ctx, st, slot)
@@ -390,7 +397,8 @@ class AtomsEngine(Engine):
         else:
             val = [self._val(ctx, cls, ts, key) for _ in range(m.n)]
         return {'op': 'set_whole', 'o': slot, 'key': key, 'form': form, 'value': val,
-                'via': r.choice(['attr', 'view', 'prop', 'sys_prop']), 'as_array': r.random() < 0.5,
+                'via': r.choice(['attr', 'view', 'prop', 'sys_prop', 'attr', 'view', 'prop', 'sys_prop', 'update', 'update_kw', 'ior', 'setdefault']),
+                'as_array': r.random() < 0.5,
                 'as_float': cls == 'int' and key != 'atype' and r.random() < 0.15, 'junk': r.randint(80, 90),
                 'layout': r.choice(['C', 'C', 'C', 'F', 'strided', 'T'])}
 
@@ -797,6 +805,17 @@ class AtomsEngine(Engine):
             ctx.must('C06.X', setattr, atoms, key, given, klass=klass)
         elif via == 'view':
             ctx.must('C06.X', atoms.view.__setitem__, key, given, klass=klass)
+        elif via in ('update', 'update_kw', 'ior', 'setdefault'):
+            # the view is a mapping: its bulk setters are assignments like any other
+            ctx.probe('view_set_through_mapping_method')
+            if via == 'setdefault' and new_key:
+                ctx.must('C06.X', atoms.view.setdefault, key, given, klass=klass)
+            elif via == 'update_kw' and key.isidentifier():
+                ctx.must('C06.X', atoms.view.update, klass=klass, **{key: given})
+            elif via == 'ior':
+                ctx.must('C06.X', atoms.view.__ior__, {key: given}, klass=klass)
+            else:
+                ctx.must('C06.X', atoms.view.update, {key: given}, klass=klass)
         elif via == 'prop':
             ctx.must('C06.X', atoms.prop, key=key, value=given, klass=klass)
         else:
@@ -1156,10 +1175,16 @@ class AtomsEngine(Engine):
         m = st['pool'][op['o']]
         scale = bool(op.get('scale')) and m.kind == 'system'
         slist = [nm for nm in (op.get('scale_list') or []) if nm in m.reg and m.reg[nm] == ('float', (3,))] if m.kind == 'system' else []
+        sstr = op.get('scale_str')
         if m.kind == 'system' and len(slist) >= 2:
             df = ctx.must('C06.A3', m.real.atoms_df, scale=list(slist), klass='atoms_df/list')
             scale = False
             ctx.probe('atoms_df_scale_list')
+        elif m.kind == 'system' and sstr and m.reg.get(sstr) == ('float', (3,)):
+            slist = [sstr]
+            df = ctx.must('C06.A3', m.real.atoms_df, scale=str(sstr), klass='atoms_df/str')
+            scale = False
+            ctx.probe('atoms_df_scale_given_as_one_name')
         elif m.kind == 'system':
             slist = []
             df = ctx.must('C06.A3', m.real.atoms_df, scale=scale, klass='atoms_df')
@@ -1194,6 +1219,20 @@ class AtomsEngine(Engine):
                     raise Violation('C06.A3', {'what': 'box-relative columns of atoms_df do not map back to the stored values', 'property': nm,
                                                'row': i, 'got_rel': relv[i], 'want_cart': m.rows[i][nm], 'scale_list': slist}, klass='df/scaled')
         ctx.probe('df_checked')
+        # the table is the caller's: it keeps it while editing the atoms, and may write into it
+        held = st.setdefault('held_df', [])
+        if op.get('scribble') and df.shape[0] and df.shape[1]:
+            num = [j for j, c in enumerate(df.columns) if df[c].dtype.kind in 'iuf']
+            if num:
+                snap = df.copy(deep=True)
+                for j in num:
+                    df.iloc[:, j] = op.get('junk', 66)
+                ctx.fault('scribble_result')
+                ctx.probe('scribble_on_table')
+                df = snap
+        else:
+            held.append((df, df.copy(deep=True)))
+            del held[:-3]
         ctx.ev('op', 'df', {'o': op['o'], 'scale': scale, 'scale_list': slist})
         return {}
 
@@ -1475,6 +1514,13 @@ class AtomsEngine(Engine):
 
     # ------------------------------------------------------------------
     def _invariants(self, ctx, st, after):
+        for df, snap in st.get('held_df', []):
+            if not df.equals(snap):
+                bad = [str(c) for c in df.columns if not df[c].equals(snap[c])]
+                raise Violation('C06.A7', {'what': 'a table returned earlier by df()/atoms_df() changed when the atoms were edited',
+                                           'columns': bad[:6], 'after': after}, klass='df/aliased')
+        if st.get('held_df') and after != 'df':
+            ctx.probe('held_table_checked_after_edits')
         for slot, m in enumerate(st['pool']):
             atoms = m.atoms
             if atoms.natoms != m.n:
